@@ -59,6 +59,18 @@ def stages(tier, rng, only=None):
     out.append(Stage("partitions_tiny", "Trace_Part", partrun.run_partitions,
                      lambda: _cases(grids.datasets(3, 2)[::2] + [ac.cyclic_dataset(rng, 3, 4) for _ in range(nq)],
                                     ac.TINY, False), _nt_part, partrun.init, aux=aux))
+    lexd = grids.datasets(3, 2)[::4] + [ac.cyclic_dataset(rng, 3, 5, incomplete=k % 2 == 1) for k in range(nq)] \
+        + [ac.cycle_plus(rng) for _ in range(nq // 2)]
+    out.append(ac.stage("lexicographic_penalties", PID, lambda: ac.lex_cases(lexd, PARCONS + ["ExactPulp", "BioConsert"]),
+                        _nt_run))
+
+    def lex_parts():
+        cs = _cases(lexd, [ac.PRESET[0]], False)
+        for k, c in enumerate(cs):
+            c["lex"] = k % 5
+        return cs
+    out.append(Stage("partitions_lexicographic", "Trace_Part", partrun.run_partitions, lex_parts, _nt_part, partrun.init,
+                     aux=aux))
     out.append(ac.stage("sparse_cycles", PID, lambda: _runs([ac.cycle_plus_sparse(rng) for _ in range(nq)], 1, 6),
                         _nt_run))
     if tier == "thorough":
